@@ -105,6 +105,7 @@ def run_property(prop_id: str, tier: str, seed: int, procs: int | None = None) -
     errors, validated, val_errors = [], 0, []
     pinned_real_checks = []
     per_harness: dict[str, dict] = {}
+    slow: list = []
     ctxm = mp.get_context("fork")
     with ctxm.Pool(min(procs, max(1, len(jobs)))) as pool:
         for out in pool.imap_unordered(_worker, [(prop_id, j, seed) for j in jobs], chunksize=1):
@@ -112,6 +113,7 @@ def run_property(prop_id: str, tier: str, seed: int, procs: int | None = None) -
             ph = per_harness.setdefault(hn, dict(jobs=0, paths=0, queries=0, obligations=0, discharged=0, truncated=0, wall_s=0.0))
             ph["jobs"] += 1
             ph["wall_s"] += out["wall_s"]
+            slow.append((round(out["wall_s"], 1), out["label"][:160]))
             if out["error"]:
                 errors.append(f"{out['label']}: {out['error']}")
                 continue
@@ -198,6 +200,9 @@ def run_property(prop_id: str, tier: str, seed: int, procs: int | None = None) -
     (VERIF / "evidence" / f"{prop_id}.json").write_text(json.dumps(ev, indent=1, default=_js))
     print(f"[{prop_id}] tier={tier} jobs={len(jobs)} paths={total.paths} truncated={total.truncated} obligations={total.obligations} "
           f"discharged={total.discharged} queries={total.queries} solver_s={total.solver_s:.1f} validated={n_validated} wall={wall:.1f}s")
+    if os.environ.get("VERIF_PROFILE"):
+        for w, lab in sorted(slow, reverse=True)[:12]:
+            print(f"  slow job {w}s {lab}", file=sys.stderr)
     for key, what in sorted(known_hits.items()):
         print(f"KNOWN-FINDING: property={prop_id} {key}: {what}")
     for rp, msg in violations:
